@@ -166,9 +166,11 @@ def _extract_omega_delta_phi(
             pchip = PCHIP1D(t_grid, signal.real)
             data_mid[:, q_pos] = pchip(t_mid)
             if name == "amp":
-                data_mid[-1, q_pos] = torch.where(
-                    data_mid[-1, q_pos] > 0,
-                    data_mid[-1, q_pos],
+                # Every step whose midpoint lies after the last sample is
+                # extrapolated and may undershoot (several of them when dt < 1)
+                data_mid[:, q_pos] = torch.where(
+                    data_mid[:, q_pos] > 0,
+                    data_mid[:, q_pos],
                     0,
                 )
 
